@@ -1,13 +1,13 @@
 SPECIFICATION GenSpec
 CONSTANTS
   P = 7
-  MaxN = 4
-  MaxT = 4
+  MaxN = 3
+  MaxT = 3
   CoefVals = {1}
   MsgVals = {1}
   Kinds = {"ok", "bad", "wrongmsg", "other", "stale"}
   MaxArrivals = 4
-  MaxPerParty = 1
-  MaxInvalid = 2
+  MaxPerParty = 2
+  MaxInvalid = 1
 INVARIANT GPrint
 CHECK_DEADLOCK FALSE
